@@ -277,7 +277,7 @@ def main():
         "seed": a.seed, "shard": a.shard, "runs_range": [lo, hi], "hash_seed": os.environ.get("PYTHONHASHSEED"),
         "fuel": fuel, "caches_discovered": sorted(pristine_sizes),
         "runs": 0, "runs_faulted": 0, "runs_faultfree": 0, "runs_shimmed": 0,
-        "steps": 0, "trivial_skipped": 0, "unsampled": 0, "marathons": 0, "max_steps_in_a_run": 0, "probes": 0, "probes_faulted": 0, "probes_faultfree": 0, "agree": 0,
+        "steps": 0, "trivial_skipped": 0, "unsampled": 0, "marathons": 0, "saturations": 0, "max_steps_in_a_run": 0, "probes": 0, "probes_faulted": 0, "probes_faultfree": 0, "agree": 0,
         "inconclusive": {}, "diverge": {}, "diverge_faulted": 0, "diverge_faultfree": 0, "diverging_runs": 0,
         "faults_armed": {}, "faults_fired": {}, "faults_swallowed": 0, "retries_ok": 0,
         "natural_failures": {}, "ops": {}, "skipped": 0, "late_drift": 0,
@@ -301,7 +301,7 @@ def main():
         cfg = prog["config"]
         if group != cold_group:
             cold_group, cold_cache = group, {}  # cold references are shared by the schedules of one script set
-        res = sh.evaluate_program(steps, envs, fuel=fuel, shims=cfg["shims"], skip_trivial=True, max_probes=40,
+        res = sh.evaluate_program(steps, envs, fuel=fuel, shims=cfg["shims"], skip_trivial=True, max_probes=cfg.get("max_probes", 40),
                                   cold_cache=cold_cache)
         if res["harness"]:
             out["harness"].append({"run": run, "what": res["harness"]})
@@ -316,6 +316,7 @@ def main():
         _add(out["schedules"], cfg["schedule"])
         out["steps"] += len(steps)
         out["marathons"] += 1 if cfg.get("marathon") else 0
+        out["saturations"] += 1 if cfg.get("saturation") else 0
         out["max_steps_in_a_run"] = max(out["max_steps_in_a_run"], len(steps))
         warm = res["warm"]
         out["clock_warm"] += warm["clock"]
